@@ -188,6 +188,29 @@ def run(ctx):
                     "the reader consumes an extra event in the handler of %s: after a self-closed element (Event::Empty) that event is the FOLLOWING element of the document, which is silently dropped from the graph" % (sorted(vs) or "a catch-all arm"), loc_str(t.span))
     ctx.floor("R-C19-6", "lookahead_reads", n_look, 1)
 
+    # ------------------------------------------------------------------ R-C19-9 every reading loop ends at Eof
+    # quick-xml keeps answering Ok(Event::Eof) once the input is exhausted: a loop around read_event_into that does not
+    # single out Eof (and leave) spins forever on a truncated document, although every turn "consumes input" (R-C19-3)
+    ctx.rule("R-C19-9", "every loop around read_event_into dispatches on a match that names Event::Eof (the arm on which the loop is left)")
+    n_rl = 0
+    for t in reads:
+        if len(natural_loop_blocks(root, t.bb)) <= 1:
+            continue
+        sp = t.at or t.span
+        cands = [m for m in ev_matches if inside(sp, m.get("span")) and not any(inside(sp, a["body_span"]) for a in m["arms"])]
+        if not cands:
+            ctx.undecided("R-C19-9", "reading-loop|%d" % (n_rl + 1), "the match that dispatches this read_event_into result was not found in the typed-HIR facts", loc_str(t.span))
+            continue
+        n_rl += 1
+        m = min(cands, key=lambda m_: (m_["span"]["eline"] - m_["span"]["line"], m_["span"]["ecol"]))
+        named = set()
+        for a in m["arms"]:
+            event_variants(a["pat"], named)
+        lb9 = natural_loop_blocks(root, t.bb)
+        ctx.require("Eof" in named, "R-C19-9", "reading-loop|%d" % n_rl, "the loop around read_event_into names Event::Eof",
+                    "a loop around read_event_into dispatches on %s and has no arm for Event::Eof: at the end of a truncated document quick-xml returns Eof on every call, the catch-all arm keeps looping and read_graphml_string never returns" % sorted(named), loc_str(t.span))
+    ctx.floor("R-C19-9", "reading_loops", n_rl, 1)
+
     def event_kinds_at(sp):
         """variants of the outermost event arm whose body contains this span (None: not inside an event arm)"""
         arms_ = []
